@@ -89,7 +89,10 @@ theorem editsOp_ok (q : Bool) (F : Nat) (a : Ghost) (hE : EditsHyp q F a) (n : N
     obtain ⟨inv, _⟩ := (coll_I a F n l s p r).mp hI
     obtain ⟨ck1, _⟩ := collExpandAll_ok P s p r inv
     exact ⟨_, _, rfl, coll_keeps a F n P hI ck1⟩
-  | .ms l s k w e, hI => exact hE n P _ hI rfl
+  | .ms l s k w e, hI =>
+    obtain ⟨inv, _⟩ := (ms_I a F n l s k w e).mp hI
+    obtain ⟨w', e', names, he, mk⟩ := msEdits_ok P q F l inv
+    exact ⟨.ms l s k w' e', names, he, ms_keeps a F n hI mk⟩
 
 /-- every public operation succeeds on a machine satisfying the invariant, and keeps it -/
 theorem applyOp_ok (q : Bool) (F : Nat) (hF : 0 < F) (a : Ghost) (hA : AtomHyp q F a) (hE : EditsHyp q F a)
